@@ -1,6 +1,178 @@
-//! C23: not implemented yet.
+//! C23: cancellation is always reported as cancellation.
+//! case: {op, asset, format, [sidecar], [fragment], [settings], [alg],
+//!        cancel: {kind:"none"} | {kind:"cb", k} | {kind:"flag", k} | {kind:"pre"} | {kind:"thread", delay_us}}
+//!   cb     - the progress callback returns false at its k-th invocation (1-based), true otherwise
+//!   flag   - the callback calls Context::cancel() during its k-th invocation and returns true
+//!   pre    - Context::cancel() before the operation starts
+//!   thread - Context::cancel() from another thread after delay_us microseconds
+//! out: {r:"ok"|"err", kind, trace:[[phase,step,total,flag_seen]..], state, failure:[codes], stage}
+use std::{
+    io::Cursor,
+    sync::{Arc, Mutex},
+};
+
+use c2pa::{Builder, Context, ProgressPhase, Reader};
 use serde_json::{json, Value};
 
-pub fn run(_case: &Value) -> Value {
-    json!({"r": "unimplemented"})
+use crate::{e2e, util::*};
+
+#[derive(Clone, Default)]
+struct Shared {
+    trace: Arc<Mutex<Vec<(String, u32, u32, bool)>>>,
+    ctx: Arc<Mutex<Option<Arc<Context>>>>,
+}
+
+fn make_context(case: &Value, sh: &Shared, with_signer: bool) -> Arc<Context> {
+    let extra = case.get("settings").filter(|s| !s.is_null()).map(|s| s.to_string());
+    let mut ctx = e2e::context(extra.as_deref());
+    if with_signer {
+        ctx = ctx.with_signer(e2e::signer(case["alg"].as_str().unwrap_or("ed25519")));
+    }
+    let kind = case["cancel"]["kind"].as_str().unwrap_or("none").to_string();
+    let k = case["cancel"]["k"].as_u64().unwrap_or(0) as usize;
+    let sh2 = sh.clone();
+    let ctx = ctx.with_progress_callback(move |phase: ProgressPhase, step: u32, total: u32| {
+        let slot = sh2.ctx.lock().unwrap().clone();
+        let seen = slot.as_ref().map(|c| c.is_cancelled()).unwrap_or(false);
+        let n = {
+            let mut t = sh2.trace.lock().unwrap();
+            t.push((format!("{phase:?}"), step, total, seen));
+            t.len()
+        };
+        match kind.as_str() {
+            "cb" => n != k,
+            "flag" => {
+                if n == k {
+                    if let Some(c) = slot {
+                        c.cancel();
+                    }
+                }
+                true
+            }
+            _ => true,
+        }
+    });
+    let ctx = Arc::new(ctx);
+    *sh.ctx.lock().unwrap() = Some(ctx.clone());
+    ctx
+}
+
+fn finish(sh: &Shared, res: Result<Value, (String, c2pa::Error)>) -> Value {
+    // break the Arc cycle (callback -> slot -> context -> callback)
+    *sh.ctx.lock().unwrap() = None;
+    let trace: Vec<Value> = sh.trace.lock().unwrap().iter().map(|(p, s, t, f)| json!([p, s, t, f])).collect();
+    match res {
+        Ok(mut v) => {
+            v["r"] = json!("ok");
+            v["trace"] = json!(trace);
+            v
+        }
+        Err((stage, e)) => json!({"r": "err", "kind": err_class(&e), "detail": format!("{e}").chars().take(200).collect::<String>(),
+                                  "stage": stage, "trace": trace}),
+    }
+}
+
+fn reader_summary(r: &Reader) -> Value {
+    let rep = e2e::report(r);
+    json!({"state": rep["state"], "failure": rep["failure"]})
+}
+
+fn ingredient_summary(b: &Builder) -> Value {
+    // the imported ingredient's recorded validation status (codes), through the builder's JSON definition
+    let v = serde_json::to_value(&b.definition).unwrap_or(Value::Null);
+    let mut codes = vec![];
+    if let Some(ings) = v["ingredients"].as_array() {
+        for i in ings {
+            if let Some(vs) = i["validation_status"].as_array() {
+                for s in vs {
+                    codes.push(s["code"].as_str().unwrap_or("").to_string());
+                }
+            }
+        }
+    }
+    codes.sort();
+    json!({"state": "Ingredient", "failure": codes})
+}
+
+pub fn run(case: &Value) -> Value {
+    let op = case["op"].as_str().unwrap_or("read");
+    let format = case["format"].as_str().unwrap_or("image/jpeg").to_string();
+    let asset = e2e::fixture(case["asset"].as_str().expect("asset"));
+    let sh = Shared::default();
+    let ctx = make_context(case, &sh, op == "embeddable");
+    let kind = case["cancel"]["kind"].as_str().unwrap_or("none");
+    if kind == "pre" {
+        ctx.cancel();
+    }
+    let canceller = if kind == "thread" {
+        let c = ctx.clone();
+        let d = case["cancel"]["delay_us"].as_u64().unwrap_or(0);
+        Some(std::thread::spawn(move || {
+            std::thread::sleep(std::time::Duration::from_micros(d));
+            c.cancel();
+        }))
+    } else {
+        None
+    };
+    let res: Result<Value, (String, c2pa::Error)> = (|| match op {
+        "read" => {
+            let r = Reader::from_shared_context(&ctx).with_stream(&format, Cursor::new(asset.clone())).map_err(|e| ("read".to_string(), e))?;
+            Ok(reader_summary(&r))
+        }
+        "read_sidecar" => {
+            let side = e2e::fixture(case["sidecar"].as_str().expect("sidecar"));
+            let r = Reader::from_shared_context(&ctx)
+                .with_manifest_data_and_stream(&side, &format, Cursor::new(asset.clone()))
+                .map_err(|e| ("read".to_string(), e))?;
+            Ok(reader_summary(&r))
+        }
+        "read_fragment" => {
+            let frag = e2e::fixture(case["fragment"].as_str().expect("fragment"));
+            let r = Reader::from_shared_context(&ctx)
+                .with_fragment(&format, Cursor::new(asset.clone()), Cursor::new(frag))
+                .map_err(|e| ("read".to_string(), e))?;
+            Ok(reader_summary(&r))
+        }
+        "sign" => {
+            let signer = e2e::signer(case["alg"].as_str().unwrap_or("ed25519"));
+            let mut b = Builder::from_shared_context(&ctx)
+                .with_definition(e2e::minimal_manifest("c23"))
+                .map_err(|e| ("definition".to_string(), e))?;
+            if case["no_embed"].as_bool().unwrap_or(false) {
+                b.set_no_embed(true);
+            }
+            if let Some(u) = case["remote_url"].as_str() {
+                b.set_remote_url(u);
+            }
+            let mut src = Cursor::new(asset.clone());
+            let mut out = Cursor::new(Vec::new());
+            let m = b.sign(signer.as_ref(), &format, &mut src, &mut out).map_err(|e| ("sign".to_string(), e))?;
+            Ok(json!({"state": "Signed", "failure": [], "manifest_len": m.len(), "out_len": out.get_ref().len()}))
+        }
+        "ingredient" => {
+            let mut b = Builder::from_shared_context(&ctx)
+                .with_definition(e2e::minimal_manifest("c23"))
+                .map_err(|e| ("definition".to_string(), e))?;
+            let mut src = Cursor::new(asset.clone());
+            b.add_ingredient_from_stream(json!({"title": "ing", "relationship": "componentOf"}).to_string(), &format, &mut src)
+                .map_err(|e| ("ingredient".to_string(), e))?;
+            Ok(ingredient_summary(&b))
+        }
+        "embeddable" => {
+            // placeholder -> (caller embeds) -> update_hash_from_stream -> sign_embeddable
+            let mut b = Builder::from_shared_context(&ctx)
+                .with_definition(e2e::minimal_manifest("c23"))
+                .map_err(|e| ("definition".to_string(), e))?;
+            let _ph = b.placeholder(&format).map_err(|e| ("placeholder".to_string(), e))?;
+            let mut src = Cursor::new(asset.clone());
+            b.update_hash_from_stream(&format, &mut src).map_err(|e| ("update_hash".to_string(), e))?;
+            let m = b.sign_embeddable(&format).map_err(|e| ("sign_embeddable".to_string(), e))?;
+            Ok(json!({"state": "Signed", "failure": [], "manifest_len": m.len()}))
+        }
+        _ => panic!("unknown op {op}"),
+    })();
+    if let Some(h) = canceller {
+        let _ = h.join();
+    }
+    finish(&sh, res)
 }
